@@ -38,7 +38,7 @@ def io_calls(log: bytes, root: str, tmpdir: str, names=IOSET):
 
 def baseline(cut, c):
     """fault-free run under strace (same conditions as the injected runs): (result, I/O calls after start-up, number of all syscalls)"""
-    r = box.run(cut, c["tree"], c["argv"], stdin=c.get("stdin", b""), uid=c.get("uid", 0), strace={"trace": True}, keep=True)
+    r = box.run(cut, c["tree"], c["argv"], stdin=c.get("stdin", b""), stdin_chunks=c.get("stdin_chunks"), uid=c.get("uid", 0), strace={"trace": True}, keep=True)
     top = os.path.dirname(r.root)
     calls = io_calls(r.strace or b"", r.root, os.path.join(top, "tmp"))
     r.all_calls = io_calls(r.strace or b"", r.root, os.path.join(top, "tmp"), names=None)
